@@ -393,7 +393,7 @@ Theorem r_heading_markup st sl el st' pos :
     /\ (forall q, pos <= q < pos + level -> char_at (b_src st) q = Some 35)
     /\ (pos + level < e -> is_space_at (b_src st) (pos + level) = true)
     /\ tmap o = Some (sl, sl + 1) /\ tmap i = Some (sl, sl + 1)
-    /\ tcontent i = py_strip (slice (b_src st) (pos + level) m2).
+    /\ tcontent i = strip_by is_space (slice (b_src st) (pos + level) m2).
 Proof.
   unfold r_heading. intros H LS Hp. rewrite LS in H. cbn [bind] in H.
   destruct (tb (b_eMarks st) sl) as [e|?|] eqn:Ee; cbn [bind] in H; try discriminate H.
